@@ -217,7 +217,9 @@ def form_lines(st):
         return _L("S.emitcr('%s')" % p[0])
     if f == 'strsemi':
         # semicolons that are not statement separators: inside a string and a comment
-        return _L("sim_ss%d = 'a; b'  # c; d" % i)
+        # (a directive is only recognised at the start of a comment: where the statement carries
+        # one, the comment of its own is left out)
+        return _L("sim_ss%d = 'a; b'%s" % (i, '' if st.get('inline') else '  # c; d'))
     if f == 'keepglobal':
         # leaves a reference to the stream it finds in sys.stdout in a long-lived object of the code under test
         return _L("S.keepstream(sys.stdout, '%s')" % p[0])
